@@ -1,8 +1,14 @@
 (* C07 — threshold and dropna keep the right samples and a support that separates them.
    Statements only; proofs in Proofs/ThresholdProofs.v.  A series is a list of (time, kept?) pairs;
    threshold_support is in DOUBLED ticks (a midpoint (x+y)/2 is stored as x+y).
-   Hypotheses: the old support is canonical, timestamps strictly increase, every sample lies in its support. *)
-From Verif Require Import Base.Prelude Model.Threshold Proofs.ThresholdProofs.
+   Hypotheses: the old support is canonical, timestamps strictly increase, every sample lies in its support.
+   Sections 1-6: statements only.  Sections 7-9 (added by the audit of the hypotheses) carry their proofs, because
+   Proofs/ThresholdProofs.v is shared with C04:
+     7. what happens WITHOUT `strictly increasing` (duplicate timestamps): refutation witnesses;
+     8. what happens to a boundary on a half tick (neighbours 1 tick apart) when it is rounded to a whole tick: refutation witness;
+     9. dropna under the EXACT hypothesis (only a lone kept row needs more than 1 us to the next row), and its converse. *)
+From Verif Require Import Base.Prelude Model.Threshold Proofs.BaseLemmas Proofs.ThresholdProofs.
+From Coq Require Import ZifyBool.
 
 Definition H (ep : iset) (l : list (Z * bool)) : Prop :=
   canonical ep /\ strictly_increasing (map fst l) /\ Forall (fun x => mem x ep = true) (map fst l).
@@ -73,3 +79,247 @@ Example C07_nonvacuous :
        [(5, true); (210, false); (250, true); (260, true); (270, false); (410, false); (420, true)]
      = [(0, 200); (460, 530); (830, 840)].
 Proof. split; [|vm_compute; reflexivity]. unfold H. split; [simpl; lia|]. split; [simpl; lia|]. repeat constructor. Qed.
+
+(* ------------------------------------------------------------------------------------------------------------------ *)
+(* 7. H asks for STRICTLY increasing timestamps; a Tsd may repeat a timestamp.  With sorted-but-repeated timestamps the
+      claims 1 and 3 are false of the faithful model:
+      (a) kept samples that all share one timestamp and are alone in their interval give the zero-length raw interval
+          [t, t]; the result is not canonical, the IntervalSet constructor drops the interval and the kept samples are lost
+          (harness key all_samples_of_interval_coincide; repaired by the proposed kernel patch);
+      (b) a kept and a rejected sample at one timestamp: the support contains the rejected one - and no support at all can
+          separate them (C07_shared_time_inseparable), so the statement itself cannot hold there
+          (harness key within_1us_of_time_shared_by_kept_and_rejected). *)
+Fixpoint nondecreasing (l : list Z) : Prop :=
+  match l with [] => True | x :: r => match r with [] => True | y :: _ => x <= y end /\ nondecreasing r end.
+Definition Hdup (ep : iset) (l : list (Z * bool)) : Prop :=
+  canonical ep /\ nondecreasing (map fst l) /\ Forall (fun x => mem x ep = true) (map fst l).
+
+Theorem C07_contains_kept_refuted_with_duplicates :
+  exists ep l, Hdup ep l /\ Forall (fun p => snd p = true) l /\
+    threshold_support ep l = [(10, 10)] /\ ~ canonical (threshold_support ep l).
+Proof.
+  exists [(0, 10)], [(5, true); (5, true)]. split; [|split; [|split]].
+  - unfold Hdup. split; [simpl; lia|]. split; [simpl; lia|]. repeat constructor.
+  - repeat constructor.
+  - vm_compute. reflexivity.
+  - replace (threshold_support [(0, 10)] [(5, true); (5, true)]) with [(10, 10)] by (vm_compute; reflexivity).
+    simpl. lia.
+Qed.
+Print Assumptions C07_contains_kept_refuted_with_duplicates.
+
+Theorem C07_excludes_rejected_refuted_with_shared_time :
+  exists ep l, Hdup ep l /\
+    ~ Forall (fun p => snd p = false -> mem (2 * fst p) (threshold_support ep l) = false) l.
+Proof.
+  exists [(0, 3)], [(0, false); (1, true); (1, false); (2, true)]. split.
+  - unfold Hdup. split; [simpl; lia|]. split; [simpl; lia|]. repeat constructor.
+  - intros HF. inversion HF as [|? ? _ H2]; subst. inversion H2 as [|? ? _ H3]; subst.
+    inversion H3 as [|? ? H4 _]; subst. specialize (H4 eq_refl). vm_compute in H4. discriminate.
+Qed.
+Print Assumptions C07_excludes_rejected_refuted_with_shared_time.
+
+Theorem C07_shared_time_inseparable : forall (S : iset) (x : Z),
+  ~ (mem x S = true /\ mem x S = false).
+Proof. intros S x [H1 H2]. rewrite H1 in H2. discriminate. Qed.
+Print Assumptions C07_shared_time_inseparable.
+
+(* 8. The model works in doubled ticks; the IntervalSet constructor rounds every bound to a whole tick (1 ns).  Under H a
+      boundary between neighbours 1 tick apart sits on a half tick next to both samples: however it is rounded, the interval
+      either has zero length (the kept sample is lost) or contains the rejected sample
+      (harness key within_1us_of_kept_rejected_pair_1ns_apart). *)
+Theorem C07_one_tick_neighbours_refuted :
+  exists ep l, canonical ep /\ strictly_increasing (map fst l) /\ Forall (fun x => mem x ep = true) (map fst l) /\
+    threshold_support ep l = [(0, 1)] /\
+    forall s e, Z.abs (2 * s - 0) <= 1 -> Z.abs (2 * e - 1) <= 1 ->
+      ~ (s < e /\ (s <= 0 <= e) /\ ~ (s <= 1 <= e)).
+Proof.
+  exists [(0, 10)], [(0, true); (1, false)]. split; [simpl; lia|]. split; [simpl; lia|].
+  split; [repeat constructor|]. split; [vm_compute; reflexivity|]. intros s e Hs He. lia.
+Qed.
+Print Assumptions C07_one_tick_neighbours_refuted.
+
+(* 9. dropna under the exact hypothesis.  `spaced` (section 5) asks EVERY pair of consecutive rows to be more than 1 us apart;
+      what is needed - and, by the converse, necessary - is only that a kept row standing alone between rejected rows (the
+      only kind of run that is widened by 1 us) is more than 1 us before the next row. *)
+(* a kept row that stands alone (the row before it, if any, and the row after it are rejected) is more than 1 us before the next row *)
+Fixpoint lone_ok (pk : bool) (l : list (Z * bool)) : Prop :=
+  match l with
+  | [] => True
+  | (x, kx) :: r =>
+      match r with
+      | (y, ky) :: _ => kx = true -> pk = false -> ky = false -> x + us < y
+      | [] => True
+      end /\ lone_ok kx r
+  end.
+
+Definition isSome {A} (o : option A) : bool := match o with Some _ => true | None => false end.
+
+Definition cur_ok2 (cur : option (Z * Z)) (l : list (Z * bool)) : Prop :=
+  match cur with
+  | None => True
+  | Some (a, b) => a <= b /\ match l with [] => True | (x, kx) :: _ => b < x /\ (a = b -> kx = false -> b + us < x) end
+  end.
+
+Lemma si_cons x kx (r : list (Z * bool)) : strictly_increasing (map fst ((x, kx) :: r)) ->
+  match r with [] => True | (y, _) :: _ => x < y end /\ strictly_increasing (map fst r).
+Proof. cbn [map fst]. intros [H1 H2]. split; [|exact H2]. destruct r as [|[y ky] r']; [exact I|exact H1]. Qed.
+
+Lemma step_kept cur x (r : list (Z * bool)) :
+  match r with [] => True | (y, _) :: _ => x < y end ->
+  lone_ok (isSome cur) ((x, true) :: r) -> cur_ok2 cur ((x, true) :: r) ->
+  let a' := match cur with Some (a, _) => a | None => x end in
+  a' <= x /\ cur_ok2 (Some (a', x)) r /\ lone_ok true r.
+Proof.
+  intros Hxy [Hl1 Hl2] Hc a'. assert (Ha : a' <= x /\ (a' = x -> cur = None)).
+  { subst a'. destruct cur as [[a b]|]; [|split; [lia|reflexivity]]. destruct Hc as [Hab [Hb _]]. split; [lia|intros; lia]. }
+  destruct Ha as [Ha Hn]. split; [exact Ha|]. split; [|exact Hl2].
+  simpl. split; [exact Ha|]. destruct r as [|[y ky] r']; [exact I|]. split; [exact Hxy|].
+  intros E Hk. rewrite (Hn E) in Hl1. apply Hl1; auto.
+Qed.
+
+Lemma closed_below a b x (r : list (Z * bool)) : cur_ok2 (Some (a, b)) ((x, false) :: r) -> a < widen a b /\ widen a b < x.
+Proof.
+  intros [Hab [Hb Hs]]. pose proof (widen_bounds a b Hab) as Hw. split; [lia|].
+  unfold widen in *. destruct (a =? b) eqn:E; [|lia]. apply Hs; [lia|reflexivity].
+Qed.
+
+Lemma runs_canon2 l : forall cur lo,
+  strictly_increasing (map fst l) -> lone_ok (isSome cur) l -> cur_ok2 cur l ->
+  match cur with
+  | Some (a, _) => lo < a
+  | None => match l with [] => True | (x, _) :: _ => lo < x end
+  end ->
+  canon lo (runs_go cur l).
+Proof.
+  induction l as [|[x kx] r IH]; intros cur lo Hs Hl Hc Hlo.
+  - rewrite runs_go_nil. destruct cur as [[a b]|]; simpl; [|auto].
+    destruct Hc as [Hab _]. pose proof (widen_bounds a b Hab). lia.
+  - rewrite runs_go_cons. destruct (si_cons _ _ _ Hs) as [Hxy Hs']. destruct kx.
+    + destruct (step_kept cur x r Hxy Hl Hc) as (Ha & Hc' & Hl').
+      apply IH; [assumption|exact Hl'|exact Hc'|]. destruct cur as [[a b]|]; exact Hlo.
+    + destruct Hl as [_ Hl']. destruct cur as [[a b]|].
+      * destruct (closed_below a b x r Hc) as [Hw1 Hw2]. simpl. split; [exact Hlo|]. split; [exact Hw1|].
+        apply IH; [assumption|exact Hl'|exact I|]. destruct r as [|[y ky] r']; [exact I|]. lia.
+      * apply IH; [assumption|exact Hl'|exact I|]. destruct r as [|[y ky] r']; [exact I|]. lia.
+Qed.
+
+Lemma runs_contains_kept2 l : forall cur,
+  strictly_increasing (map fst l) -> lone_ok (isSome cur) l -> cur_ok2 cur l ->
+  Forall (fun x => mem x (runs_go cur l) = true) (kept_times l).
+Proof.
+  unfold kept_times.
+  induction l as [|[x kx] r IH]; intros cur Hs Hl Hc; [constructor|].
+  rewrite runs_go_cons. destruct (si_cons _ _ _ Hs) as [Hxy Hs'].
+  cbn [filter snd]. destruct kx; cbn [map fst].
+  - destruct (step_kept cur x r Hxy Hl Hc) as (Ha & Hc' & Hl'). constructor.
+    + apply runs_mem_open; [assumption| |lia]. destruct r as [|[y ky] r']; [exact I|exact Hxy].
+    + apply IH; assumption.
+  - destruct Hl as [_ Hl']. destruct cur as [[a b]|].
+    + eapply Forall_impl'; [|apply (IH None Hs' Hl' I)].
+      intros z Hz. rewrite mem_cons, Hz. apply orb_true_r.
+    + apply IH; [assumption|exact Hl'|exact I].
+Qed.
+
+Lemma runs_excludes_rejected2 l : forall cur,
+  strictly_increasing (map fst l) -> lone_ok (isSome cur) l -> cur_ok2 cur l ->
+  Forall (fun p => snd p = false -> mem (fst p) (runs_go cur l) = false) l.
+Proof.
+  induction l as [|[x kx] r IH]; intros cur Hs Hl Hc; [constructor|].
+  rewrite runs_go_cons. destruct (si_cons _ _ _ Hs) as [Hxy Hs'].
+  pose proof (si_Forall _ _ Hs) as Hall.
+  destruct kx.
+  - destruct (step_kept cur x r Hxy Hl Hc) as (Ha & Hc' & Hl').
+    constructor; [simpl; discriminate|]. apply IH; assumption.
+  - destruct Hl as [_ Hl'].
+    assert (Hcanon : canon x (runs_go None r)).
+    { apply runs_canon2; [assumption|exact Hl'|exact I|]. destruct r as [|[y ky] r']; [exact I|exact Hxy]. }
+    destruct cur as [[a b]|].
+    + destruct (closed_below a b x r Hc) as [Hw1 Hw2].
+      constructor.
+      * intros _. cbn [fst]. rewrite mem_cons.
+        rewrite (mem_below _ x x Hcanon) by lia. unfold inb; simpl. lia.
+      * pose proof (IH None Hs' Hl' I) as HI.
+        rewrite Forall_forall in HI |- *. intros [z kz] Hin Hk.
+        rewrite mem_cons, (HI _ Hin Hk). cbn [fst].
+        rewrite Forall_forall in Hall.
+        assert (x < z) by (apply Hall; apply in_map_iff; exists (z, kz); auto).
+        unfold inb; simpl. lia.
+    + constructor.
+      * intros _. cbn [fst]. apply (mem_below _ x x Hcanon). lia.
+      * apply IH; [assumption|exact Hl'|exact I].
+Qed.
+
+Theorem C07_dropna_exact : forall l, strictly_increasing (map fst l) -> lone_ok false l ->
+  Forall (fun x => mem x (dropna_support l) = true) (kept_times l)
+  /\ Forall (fun p => snd p = false -> mem (fst p) (dropna_support l) = false) l
+  /\ canonical (dropna_support l).
+Proof.
+  intros l Hs Hl. split; [|split].
+  - apply runs_contains_kept2; [assumption|exact Hl|exact I].
+  - apply runs_excludes_rejected2; [assumption|exact Hl|exact I].
+  - destruct l as [|[x kx] r]; [exact I|].
+    apply (canon_canonical _ (x - 1)). apply runs_canon2; [assumption|exact Hl|exact I|lia].
+Qed.
+Print Assumptions C07_dropna_exact.
+
+(* ... and the hypothesis is necessary: if the support excludes every rejected row, every lone kept row is more than 1 us before the next row *)
+Lemma runs_excludes_needs_lone_ok l : forall cur,
+  strictly_increasing (map fst l) ->
+  match cur with None => True | Some (a, b) => a <= b /\ match l with [] => True | (x, _) :: _ => b < x end end ->
+  Forall (fun p => snd p = false -> mem (fst p) (runs_go cur l) = false) l ->
+  lone_ok (isSome cur) l /\
+  match cur, l with Some (a, b), (x, false) :: _ => a = b -> b + us < x | _, _ => True end.
+Proof.
+  induction l as [|[x kx] r IH]; intros cur Hs Hc HF.
+  - split; [exact I|]. destruct cur as [[a b]|]; exact I.
+  - rewrite runs_go_cons in HF. destruct (si_cons _ _ _ Hs) as [Hxy Hs']. destruct kx.
+    + inversion HF as [|? ? _ HF']; subst.
+      set (a' := match cur with Some (a, _) => a | None => x end) in *.
+      assert (Ha : a' <= x /\ (cur = None -> a' = x)).
+      { subst a'. destruct cur as [[a b]|]; [|split; [lia|reflexivity]]. destruct Hc as [Hab Hb]. split; [lia|discriminate]. }
+      destruct Ha as [Ha Hn].
+      destruct (IH (Some (a', x)) Hs') as [Hl Hd]; [|exact HF'|].
+      { split; [exact Ha|]. destruct r as [|[y ky] r']; [exact I|exact Hxy]. }
+      split; [|destruct cur as [[a b]|]; exact I]. split; [|exact Hl].
+      destruct r as [|[y ky] r']; [exact I|]. intros _ Hp Hk. subst ky.
+      apply Hd. apply Hn. destruct cur; [discriminate|reflexivity].
+    + destruct cur as [[a b]|].
+      * destruct Hc as [Hab Hb]. inversion HF as [|? ? Hx HF']; subst. specialize (Hx eq_refl). cbn [fst] in Hx.
+        rewrite mem_cons in Hx. apply orb_false_iff in Hx. destruct Hx as [Hx _].
+        assert (HF'' : Forall (fun p => snd p = false -> mem (fst p) (runs_go None r) = false) r).
+        { eapply Forall_impl'; [|exact HF']. intros p Hp Hk. specialize (Hp Hk). rewrite mem_cons in Hp.
+          apply orb_false_iff in Hp. tauto. }
+        destruct (IH None Hs' I HF'') as [Hl _].
+        split.
+        -- split; [|exact Hl]. destruct r as [|[y ky] r']; [exact I|]. discriminate.
+        -- intros E. unfold inb, widen in Hx. simpl in Hx. destruct (a =? b) eqn:E'; lia.
+      * inversion HF as [|? ? _ HF']; subst. destruct (IH None Hs' I HF') as [Hl _].
+        split; [|exact I]. split; [|exact Hl]. destruct r as [|[y ky] r']; [exact I|]. discriminate.
+Qed.
+
+Theorem C07_dropna_exact_converse : forall l, strictly_increasing (map fst l) ->
+  Forall (fun p => snd p = false -> mem (fst p) (dropna_support l) = false) l -> lone_ok false l.
+Proof. intros l Hs HF. exact (proj1 (runs_excludes_needs_lone_ok l None Hs I HF)). Qed.
+Print Assumptions C07_dropna_exact_converse.
+
+Lemma spaced_lone_ok l : forall pk, spaced (map fst l) -> lone_ok pk l.
+Proof.
+  induction l as [|[x kx] r IH]; intros pk Hs; [exact I|]. cbn [map fst] in Hs. destruct Hs as [H1 H2].
+  split; [|apply IH; exact H2]. destruct r as [|[y ky] r']; [exact I|]. intros _ _ _. exact H1.
+Qed.
+
+(* the raw runs of a kept row 1 us before the next kept run touch: the constructor trims the first by 1 us to nothing and the
+   kept row is LOST (harness key kept_singleton_exactly_1us_before_next_kept_run; repaired by the proposed dropna patch) *)
+Theorem C07_dropna_canonical_refuted_when_close :
+  exists l, strictly_increasing (map fst l) /\ dropna_support l = [(0, 1000); (1000, 2000)] /\ ~ canonical (dropna_support l).
+Proof.
+  exists [(0, true); (500, false); (1000, true)]. split; [simpl; lia|]. split; [vm_compute; reflexivity|].
+  replace (dropna_support [(0, true); (500, false); (1000, true)]) with [(0, 1000); (1000, 2000)] by (vm_compute; reflexivity).
+  simpl. lia.
+Qed.
+Print Assumptions C07_dropna_canonical_refuted_when_close.
+
+Example C07_dropna_exact_nonvacuous :
+  let l := [(0, true); (500, true); (600, false); (2000, true); (4000, false)] in
+  strictly_increasing (map fst l) /\ lone_ok false l /\ ~ spaced (map fst l) /\ dropna_support l = [(0, 500); (2000, 3000)].
+Proof. cbv zeta. split; [simpl; lia|]. split; [simpl; unfold us; intuition lia|]. split; [simpl; unfold us; lia|vm_compute; reflexivity]. Qed.
